@@ -81,7 +81,7 @@ Section Visitors.
   Lemma K_seq_elems t xs : kok t -> forall i, errs kinv (seq_elems de t xs i).
   Proof.
     intro Hde. induction xs as [|x xs IH]; intro i; [exact I|]. cbn [seq_elems].
-    apply errs_lbind; [apply K_under_quiet; [exact I|apply Hde]|]. intros v _.
+    apply errs_lbind; [apply K_under_quiet; [exact I|apply K_wrap; apply Hde]|]. intros v _.
     apply errs_lbind; [apply IH|]. intros vs _. exact I.
   Qed.
 
@@ -90,7 +90,7 @@ Section Visitors.
   Proof.
     induction l as [|a l IH]; intros F xs i; [exact I|]. inversion F; subst. cbn [pos_elems].
     destruct xs as [|x xs]; [apply (@K_raise (list sval))|].
-    apply errs_lbind; [apply K_under_quiet; [exact I|auto]|]. intros v _.
+    apply errs_lbind; [apply K_under_quiet; [exact I|apply K_wrap; auto]|]. intros v _.
     apply errs_lbind; [apply IH; assumption|]. intros vs _. exact I.
   Qed.
 
@@ -132,7 +132,7 @@ Section Visitors.
   Proof.
     induction ts as [|t ts IH]; intros F xs; [exact I|]. inversion F; subst. cbn [pos_entries].
     destruct xs as [|[i e] xs]; [apply (@K_raise (list sval))|].
-    apply errs_lbind; [apply K_under_quiet; [exact I|auto]|]. intros v _.
+    apply errs_lbind; [apply K_under_quiet; [exact I|apply K_wrap; auto]|]. intros v _.
     apply errs_lbind; [apply IH; assumption|]. intros vs _. exact I.
   Qed.
 End Visitors.
@@ -203,7 +203,7 @@ Proof.
   - (* unit variant *)
     rename s into y. cbn [de_payload]. destruct (sempty_container y); [exact I|apply (@K_raise_at sval)].
   - (* newtype variant *)
-    rename s into y. cbn [de_payload]. apply IHt.
+    rename s into y. cbn [de_payload]. apply K_wrap. apply IHt.
   - (* tuple variant *)
     rename s into y. cbn [de_payload]. destruct y as [sp x|sp xs|sp es].
     + apply (@K_raise_at sval).
@@ -284,6 +284,9 @@ Qed.
 Lemma N_key_of_entry {A} i e (r : lres A) : en_kspan e = None -> errs nospan r -> errs nospan (key_of_entry i e r).
 Proof. intros K H. unfold key_of_entry. apply N_under, N_on_key. rewrite K. apply N_wrap_none. exact H. Qed.
 
+Lemma ns_span s : ns s -> span_of s = None.
+Proof. destruct s; intros [E _]; exact E. Qed.
+
 Section NVisitors.
   Variable de : ty -> stree -> lres sval.
   Definition nok (t : ty) : Prop := forall s, ns s -> errs nospan (de t s).
@@ -291,7 +294,7 @@ Section NVisitors.
   Lemma N_seq_elems t xs : nok t -> Forall ns xs -> forall i, errs nospan (seq_elems de t xs i).
   Proof.
     intros Hde F. induction F as [|x xs Hx _ IH]; intro i; [exact I|]. cbn [seq_elems].
-    apply errs_lbind; [apply N_under; apply Hde; exact Hx|]. intros v _.
+    apply errs_lbind; [apply N_under; rewrite (ns_span x Hx); apply N_wrap_none; apply Hde; exact Hx|]. intros v _.
     apply errs_lbind; [apply IH|]. intros vs _. exact I.
   Qed.
 
@@ -300,7 +303,7 @@ Section NVisitors.
   Proof.
     induction l as [|a l IH]; intros F xs i Fx; [exact I|]. inversion F; subst. cbn [pos_elems].
     destruct xs as [|x xs]; [apply (@N_raise (list sval))|]. inversion Fx; subst.
-    apply errs_lbind; [apply N_under; auto|]. intros v _.
+    apply errs_lbind; [apply N_under; rewrite (ns_span x) by assumption; apply N_wrap_none; auto|]. intros v _.
     apply errs_lbind; [apply IH; assumption|]. intros vs _. exact I.
   Qed.
 
@@ -345,7 +348,7 @@ Section NVisitors.
   Proof.
     induction ts as [|t ts IH]; intros F xs Fx; [exact I|]. inversion F; subst. cbn [pos_entries].
     destruct xs as [|[i e] xs]; [apply (@N_raise (list sval))|]. inversion Fx; subst. cbn [snd] in *.
-    apply errs_lbind; [apply N_under; auto|]. intros v _.
+    apply errs_lbind; [apply N_under; rewrite (ns_span (en_val e)) by assumption; apply N_wrap_none; auto|]. intros v _.
     apply errs_lbind; [apply IH; assumption|]. intros vs _. exact I.
   Qed.
 End NVisitors.
@@ -379,9 +382,6 @@ Proof.
       destruct (en_val e) as [sp' x'|sp' xs'|sp' es']; try apply (@N_raise datetime).
       destruct x'; try apply (@N_raise datetime). apply N_of_fresh. apply fresh_de_dt.
 Qed.
-
-Lemma ns_span s : ns s -> span_of s = None.
-Proof. destruct s; intros [E _]; exact E. Qed.
 
 Theorem N_de_loc c t : forall s, ns s -> errs nospan (de_loc c t s).
 Proof.
@@ -419,7 +419,7 @@ Proof.
       * intros j var Hin. rewrite Forall_forall in H. specialize (H (en_key e, var) Hin). cbn [snd] in H.
         apply errs_lmap. apply N_under. apply H. exact Hv.
   - cbn [de_payload]. destruct (sempty_container s); [exact I|]. unfold raise_at, nospan. cbn. exact Sp.
-  - cbn [de_payload]. apply IHt. exact Hs.
+  - cbn [de_payload]. rewrite Sp. apply N_wrap_none. apply IHt. exact Hs.
   - cbn [de_payload]. destruct s as [sp x|sp xs|sp es].
     + unfold raise_at, nospan. cbn. exact Sp.
     + apply ns_arr in Hs as [-> F].
